@@ -178,21 +178,27 @@ class PermutationReciprocalTransformer(BaseReciprocalTransformer):
         self._check_is_fitted()
         if len(y.shape) == 1 or y.dtype in (numpy.str_, numpy.int32, numpy.int64):
             # permutes classes
-            yp = y.copy().ravel()
             num = numpy.issubdtype(y.dtype, numpy.floating)
-            for i in range(len(yp)):
-                if num and numpy.isnan(yp[i]):
+            yr = y.ravel()
+            if num:
+                yp = yr.copy()
+            else:
+                # the permuted values may have another type than the keys (strings, bools)
+                values = numpy.array(list(self.permutation_.values()))
+                yp = numpy.empty(yr.shape, dtype=values.dtype)
+            for i in range(len(yr)):
+                if num and numpy.isnan(yr[i]):
                     continue
-                if yp[i] not in self.permutation_:
+                if yr[i] not in self.permutation_:
                     if self.closest:
-                        cl = self._find_closest(yp[i])
+                        cl = self._find_closest(yr[i])
                     else:
                         raise RuntimeError(
-                            f"Unable to find key {yp[i]!r} in "
+                            f"Unable to find key {yr[i]!r} in "
                             f"{list(sorted(self.permutation_))!r}."
                         )
                 else:
-                    cl = yp[i]
+                    cl = yr[i]
                 yp[i] = self.permutation_[cl]
             return X, yp.reshape(y.shape)
         else:
